@@ -78,6 +78,12 @@ prop("C19", engine="netsim+all", level="exploration", technique="deterministic s
      text="No accessor panics; IsPull/ChannelID/OtherPeer/Both/SelfPaused/first voucher agree with each other and with creation; voucher and result logs only grow by appends; a voucher is recorded by the initiator iff its send succeeded, exactly once; the responder records each received voucher and each sent result exactly once; Last* equal the final entry or the empty value.",
      note="")
 
+prop("C14", engine="monsim", level="exploration", technique="deterministic simulation of the real channel monitor on a simulated clock with scripted event timing and injected reconnect/restart failures and latencies; timed call-log oracle",
+     rule="one evaluation = one seeded run of the real channelmonitor.Monitor (+ debounce) against a recording double of the manager API: random configuration (timeouts on/off, debounce, backoff, restart limit), 1-3 channels, 2-16 scripted events each (error bursts, data events, Accept, FinishTransfer, cleanup/terminal endings) with ms..10 s gaps, reconnect/restart calls that fail n times or persistently and take 0..3 s; 15 simulated minutes; non-trivial = every run (all have >= 2 events); distinct = schedule hash",
+     probes=["trigger-during-attempt", "accept-timeout-fired", "complete-timeout-fired", "closed-with-error", "shutdown-seen", "several-attempts"], real=["channelmonitor (Monitor, monitoredChannel)", "bep/debounce"], stubs=["manager API (subscribe/restart/close/connect) -> recording double with scripted failures and latencies", "clock -> testing/synctest fake clock", "scheduler -> simrt"], assumptions=["events reach the monitor sequentially (the manager's notifier is one goroutine)", "computation takes zero simulated time: an event and a timer at the same instant may be seen in either order (ties are not judged)"],
+     text="Over the timed call log: restart attempts of one channel never overlap; a restart requested during an attempt is followed by a later attempt; successful restarts <= debounced requests; attempts between data events <= MaxConsecutiveRestarts; persistent failure closes; at most one close-with-error; accept/complete timeouts close at exactly the deadline iff the awaited event did not arrive strictly before (never when 0); after a cleanup/terminal event nothing is restarted or closed, the subscription is gone and the id can be added again; nil config does nothing.",
+     note="the restart back-off is not asserted (not in the statement)")
+
 ORDER = ["C%02d" % i for i in range(1, 21)]
 PENDING = {pid: "check under construction in this session (engine not yet registered); not claimed until its quick command runs clean" for pid in ORDER if pid not in P}
 
@@ -118,6 +124,7 @@ def main():
         },
         "engines": [
             {"name": "fsmsim", "path": "sim/fsmsim.go", "serves_properties": ["C02", "C03", "C06", "C07", "C08", "C09", "C11", "C17", "C19"], "kind_free_text": "real channels FSM stack on SimDisk under the simrt baton scheduler"},
+            {"name": "monsim", "path": "sim/monsim.go", "serves_properties": ["C14"], "kind_free_text": "real channel monitor against a recording manager double on the fake clock"},
             {"name": "netsim", "path": "sim/netscen.go", "serves_properties": ["C01", "C02", "C04", "C09", "C10", "C11", "C19", "C20"], "kind_free_text": "two real managers over SimHost/SimGraphsync/SimDisk under the simrt baton scheduler, with fault injection"},
         ],
         "checks": checks,
